@@ -26,7 +26,7 @@ RULE = ('Generated issuing parameters: key names (identity of 0..3 components + 
         'parse_certificate / parse_data return the same fields. Non-trivial = signature shorter than reserved, or total size within '
         '+-8 of 253; distinct key = (function, subject type, issuer type, shrink, outer length form).')
 ASSUMPTIONS = [
-    'start times are naive or UTC-aware datetimes (what the callers pass); instants are rendered without time-zone conversion',
+    'start times are naive or time-zone-aware datetimes; the validity period shows the wall-clock fields of the datetime that was passed (no conversion)',
     'the clock is constant during one call (sign_req reads it twice)',
     'pycryptodome is trusted for verification',
 ]
@@ -69,6 +69,8 @@ def _case(draw):
             'issuer': draw(st.one_of(st.sampled_from(['self', 'ndn', 'a.b', 'x-1']).map(lambda t: {'text': t}),
                                      S.component(10).map(lambda c: {'comp': c}))),
             'start': draw(_DATES), 'aware': draw(st.booleans()),
+            'tz_min': draw(st.sampled_from([0, 0, 0, 540, -480, 330, 765, -720, 840])),
+            'second_tz': draw(st.sampled_from([None, None, 0, 540, -300, 60])),
             'dur': draw(st.one_of(st.sampled_from([0, 1, 59, 60, 86399, 86400, 31536000, 100 * 365 * 86400]), st.integers(0, 10 ** 9))),
             'now': draw(_DATES), 'clock_ms': draw(st.integers(0, 2 ** 44)),
             'target_total': draw(st.one_of(st.none(), st.integers(245, 261)))}
@@ -100,7 +102,10 @@ def run_case(case):
         try:
             if case['fn'] == 'derive':
                 try:
-                    start = dt.datetime(*case['start'], tzinfo=dt.timezone.utc if case['aware'] else None)
+                    tz = None
+                    if case['aware']:
+                        tz = dt.timezone(dt.timedelta(minutes=case.get('tz_min', 0)))
+                    start = dt.datetime(*case['start'], tzinfo=tz)
                     end = start + dt.timedelta(seconds=case['dur'])
                 except (ValueError, OverflowError):
                     r.discarded = True
@@ -130,6 +135,21 @@ def run_case(case):
             break
         pad = max(1, case['target_total'] - len(wire) - 2)
     tag = case['fn']
+    if case['fn'] == 'derive' and case['aware'] and case.get('second_tz') is not None:
+        # the same instant, expressed in another UTC offset, issued right afterwards in the same process:
+        # each certificate shows the wall-clock fields of the datetime IT was given
+        try:
+            start2 = start.astimezone(dt.timezone(dt.timedelta(minutes=case['second_tz'])))
+            end2 = start2 + dt.timedelta(seconds=case['dur'])
+            _n2, w2 = derive_cert(key_name, issuer_arg, pub, K.make_signer(spec, record=False), start2, case['dur'])
+            c2 = P.strict_cert(bytes(w2))
+            if c2['validity'] != (fmt(start2), fmt(end2)):
+                r.bad('C16/derive/validity-period/second-issuance-other-offset', f'{c2["validity"]} != {(fmt(start2), fmt(end2))} '
+                      f'(first issuance {fmt(start)} at offset {case.get("tz_min", 0)} min)')
+        except (ValueError, OverflowError):
+            pass
+        except T.Malformed as e:
+            r.bad('C16/derive/wire-malformed/second-issuance', str(e))
     try:
         c = P.strict_cert(wire)
     except T.Malformed as e:
